@@ -230,6 +230,8 @@ def c15(ctx, t0):
         res.append(sc_checks.c15_stage(ctx))
     if want(ctx, 'concurrent-adds'):
         res.append(ctx.run_child('concurrent-adds', [ctx.build_hx(), 'c15race'], T(ctx, 300, 1200)))
+    if want(ctx, 'name-families'):
+        res.append(ctx.run_child('name-families', [ctx.build_hx(), 'c15names'], T(ctx, 300, 1200)))
     if want(ctx, 'agent-readonly'):
         ctx.build_agent()
         r = ctx.run_child('agent-readonly', [ctx.build_hx(), 'c15agent'], T(ctx, 600, 1200))
